@@ -33,8 +33,9 @@ def splitDots (s : String) : List String := s.splitOn "."
 
 def isNamed (fn : String) : Bool := fn == "sum" || fn == "prod" || fn == "min" || fn == "max"
 def isIntrinsic (ty : String) : Bool := ty == "int" || ty == "long" || ty == "double" || ty == "complex"
-def isLight (ty : String) : Bool := isLightArith ty || ty == "cfloat" || ty == "cldouble" || ty == "pod"
-def isTrueScalar (ty : String) : Bool := ty != "fv3"
+def isLight (ty : String) : Bool :=
+  isLightArith ty || ty == "cfloat" || ty == "cldouble" || ty == "pod" || ty == "ppair" || ty == "fvp" || ty == "big40"
+def isTrueScalar (ty : String) : Bool := ty != "fv3" && ty != "fvp"
 
 structure CollCase where
   comm : String
@@ -83,7 +84,8 @@ def unsupported (k : CollCase) (seq : Bool) (inSize outSize : Nat) : Bool :=
       if (redOp k.ty k.fn).isNone then true
       else if form == "sc" then !(k.n == 1)
       else !(form == "ip" || form == "io")
-    | "bcast", "ptr" | "gatherv", "ptr" | "allgather", "ptr" => false
+    | "bcast", "ptr" | "gather", "ptr" | "gatherv", "ptr" | "scatter", "ptr" | "scatterv", "ptr" | "allgather", "ptr"
+    | "allgatherv", "ptr" => false
     | _, _ => true
   else
   match k.base, k.form with
@@ -311,8 +313,12 @@ def tmapOf (ty : String) (lay : List Nat) : Option TMap :=
   -- no MPITraits specialisation: `sizeof(T)` bytes
   | "llong", [s] | "pod", [s] => some (contiguous s (basic 1))
   | "fv3", [d, n, w] => some (fieldVector d n (basic w))
-  | "big96", [d, n, w] => some (bigUnsigned d n (basic w))
+  | "big96", [d, n, w] | "big40", [d, n, w] => some (bigUnsigned d n (basic w))
   | "pair", [o1, s1, o2, s2, size] => some (pair o1 (basic s1) o2 (basic s2) size)
+  | "pairlc", [o1, s1, o2, s2, size] => some (pair o1 (contiguous s1 (basic 1)) o2 (basic s2) size)
+  | "ppair", [o1, s1, o2, s2, isz, oi, os, ss, size] =>
+      some (pair oi (pair o1 (contiguous s1 (basic 1)) o2 (basic s2) isz) os (basic ss) size)
+  | "fvp", [d, n, o1, s1, o2, s2, psz] => some (fieldVector d n (pair o1 (contiguous s1 (basic 1)) o2 (basic s2) psz))
   | "pli", [offA, size] => some (localIndex offA (basic 1) size)
   | "ip", [offG, szG, offL, offA, szL, size] => some (indexPair offG (basic szG) offL (localIndex offA (basic 1) szL) size)
   | _, _ => none
